@@ -17,6 +17,10 @@ import (
 	"verif/engine/vs"
 )
 
+// what the plugin of the crash session writes to its REAL stdout after the handshake line (the descriptor the
+// host scans line by line): a line longer than the scanner's 64 KiB limit and a short tail
+var crashRealStdout = append(bytes.Repeat([]byte{'z'}, 70000), []byte("\ntail\n")...)
+
 type opRec struct {
 	name       string
 	startSeq   int64
@@ -53,7 +57,7 @@ func init() {
 		Body: func(x *vs.Exec, p explore.Params) {
 			seq := x.Data["seq"].(*atomic.Int64)
 			// the plugin writes to its stdout while the session runs (crash point "during stdio streaming")
-			lc := newLive(x, liveOpts{proto: p["proto"], timeout: 3 * time.Second, pStdout: bytes.NewReader(pattern(3, 3000)), syncOut: io.Discard})
+			lc := newLive(x, liveOpts{proto: p["proto"], timeout: 3 * time.Second, pStdout: bytes.NewReader(pattern(3, 3000)), syncOut: io.Discard, realStdout: crashRealStdout})
 			x.Data["lc"] = lc
 			var ops []*opRec
 			x.Data["ops"] = &ops
